@@ -122,6 +122,9 @@ func (f *PacketFiller) Fill(packet gopacket.SerializeBuffer, r *scan.Request) (e
 		// cat /proc/sys/net/ipv4/ip_local_port_range
 		SrcPort: layers.UDPPort(32768 + rand.Intn(61000-32768)),
 		DstPort: layers.UDPPort(r.DstPort),
+		// gopacket computes the UDP length only with FixLengths,
+		// which is off when the IP total length is set explicitly
+		Length: uint16(8 + len(f.payload)),
 	}
 
 	if err = udp.SetNetworkLayerForChecksum(ip); err != nil {
